@@ -54,7 +54,7 @@ def ops(tier: str) -> List[tuple]:
     for times in (255, 256, 257, 300, 513):
         out.append(_op("beep", 1000, on_ms=1, off_ms=0, times=times))
     for s, e in ((200, 800), (800, 200), (500, 500), (0, 300), (-10, 50), (100.5, 101.5), (400, 0), (300, -20)):
-        for d, steps in ((100, 10), (0, 5), (20, 12), (100, 8), (50, 1), (30, 0), (30, -1), (255, 10), (4, 10), (2.5, 7)):
+        for d, steps in ((100, 10), (0, 5), (20, 12), (100, 8), (50, 1), (30, 0), (30, -1), (255, 10), (4, 10), (2.5, 7), (-30, 5)):
             if (s, e) in ((500, 500), (-10, 50), (100.5, 101.5), (300, -20)) and steps not in (10, 1, 0):
                 continue
             out.append(_op("sweep", s, e, duration_ms=d, steps=steps))
@@ -438,7 +438,7 @@ def check_call(op, events: List[tuple], getters: List[str], st: dict) -> Optiona
                 return f"sweep starts on {got[0]}, start frequency {s}"
             sounded = [w for w in want if w > 0]
             st["last"] = float(sounded[-1]) if sounded else st["last"]  # the tone last SOUNDED (a sweep may end on silence)
-        if total_delay > int(dur):
+        if total_delay > max(0, int(dur)):
             return f"sweep waited {total_delay} ms > duration {dur}"
         err = silent_end()
         if err:
